@@ -16,8 +16,8 @@
 (*         harness evaluated from the specification's integers (ties       *)
 (*         share a rank; the pre-order is supplied by the log, TLC has no  *)
 (*         reals)                                                          *)
-(*   frk   fused rank (mode hybrid): dense rank of the late-fusion score   *)
-(*         the harness evaluated for the documents of the pool             *)
+(*   frk   fused rank (mode hybrid): dense rank, over ALL documents of L,   *)
+(*         of alpha/(1+d) + (1-alpha)*bm25/max evaluated by the harness    *)
 (*   ok    the harness's own verdict (judge.go)                            *)
 (* Every record is judged here with the TLA+ predicates themselves         *)
 (* (FusionOK = TextOnlyOK / VectorOnlyOK / TextFirstOK / HybridOK); the    *)
